@@ -180,6 +180,8 @@ theorem unbond_spec (c c1 : VSt) (d : Addr) (sh : Dec) (amt : Int) (h : unbond c
   · rename_i x hx
     split at h
     · cases h
+    split at h
+    · cases h
     · rename_i hle
       split at h
       · cases h
@@ -203,6 +205,8 @@ theorem delegate_spec (c c2 : VSt) (d : Addr) (amt : Int) (r : Dec) (h : delegat
     split at h
     · cases h
     · rename_i hinv
+      split at h
+      · cases h
       split at h
       · cases h
       · rename_i v1 r' ha
